@@ -85,6 +85,57 @@ def check_field(prop, tier, seed, work, t0):
                         extra_cov=extra, replay_info={"harness": "fieldops.cpp", "how": "./check %s --replay <file>" % prop})
 
 
+# ------------------------------------------------------------------------------------------ C02 / C11 / C13 / C14
+LANE_REQUIRED = ["family:fixed_x_fixed", "family:small_grid", "family:solve_sum", "family:product_target", "family:mixed_random",
+                 "lane:a_noncanonical_canonicalised", "lane:add_overflow_corrected", "lane:add_no_overflow", "lane:small_equal_high_halves",
+                 "lane:small_low_half_carry", "lane:sub_underflow_corrected", "lane:sub_no_underflow", "lane:true_sum_or_diff_noncanonical_band",
+                 "lane:b_equals_0xFFFFFFFF00000000", "lane:mul_hi_lo_ffffffff", "lane:mul_hi_hi_ffffffff", "lane:mul_hi_zero",
+                 "lane:load_store_set_shift_checked"]
+MAT_REQUIRED = ["band:probed_lane_products_noncanonical", "band:probed_two_or_more_noncanonical_addends_in_one_lane",
+                "band:state_positions_with_product_in_[p,2^64)"] + \
+    ["matfam:%s:%s" % (f, w) for f in ("uniform", "boundary", "band_directed", "three_times_5555", "quotient_like") for w in ("8bit", "full")]
+LANE_RULE = ("every lane of every call carries a different operand pair (lane position rotated per call); pairs from the fixed boundary set "
+             "cross product, the '_small' grid (high halves equal/adjacent/sign-flipped, low halves summing just below/at/above 2^32, "
+             "b up to and including 0xFFFFFFFF00000000), solve-for sums around 2^64/p/2p, 128-bit product targets (hi_lo=0xFFFFFFFF, "
+             "hi_hi=0xFFFFFFFF, product exactly in [p,2^64)), and mixed random pairs; each pair is constrained per kernel to exactly the "
+             "documented operand assumption (shifted / canonical / <=0xFFFFFFFF00000000 / <2^8 / high word <2^32) and the lane result compared "
+             "with the scalar oracle (congruence, exact canonical value, or exact 128/72-bit integer as the kernel documents). evaluations = "
+             "lane evaluations; non-trivial = pair takes a correction path or hits a boundary pattern by the shadow classifier; distinct by "
+             "hash of the pair (capped set, lower bound).")
+MAT_RULE = ("trials = (state(s), 144 coefficients) drawn from five families: uniform, boundary values, band-directed (state = floor(t/coef) "
+            "with t in [p,2^64) so lane products are exactly non-canonical, rows sharing coefficients so the band appears in >=2 addends and "
+            ">=2 lanes), 3*0x5555555555555555, quotient-like states against 8-bit coefficients; every kernel (unaligned at offsets 0..3, "
+            "aligned, 8-bit when all coefficients < 256) compared with the integer matrix-vector oracle per state. The harness probes the "
+            "intermediate lane products to count how many were non-canonical. Every trial is distinct (fresh random draw) and non-trivial "
+            "(12..144 products reduced and summed); distinct by hash (capped).")
+
+
+@reg("C02", "C11", "C13", "C14")
+def check_vec(prop, tier, seed, work, t0):
+    is512 = prop in ("C11", "C14")
+    if is512 and not vfw.have_avx512():
+        raise vfw.Inconclusive("this CPU has no AVX-512F; %s cannot be executed" % prop)
+    sfx = "512" if is512 else ""
+    bins = vfw.build_many(work, [
+        {"name": "vecops-prod" + sfx, "flavour": "prod" + sfx, "srcs": [H("vecops.cpp")], "libsrcs": ["goldilocks_base_field.cpp"]},
+        {"name": "vecops-asan" + sfx, "flavour": "asan" + sfx, "srcs": [H("vecops.cpp")], "libsrcs": ["goldilocks_base_field.cpp"]},
+    ])
+    res = vfw.Results()
+    th = tier == "thorough"
+    if prop in ("C02", "C11"):
+        a_prod = ["--random", scaled(tier, 200000000, 20000000000)]
+        a_asan = ["--random", scaled(tier, 2000000, 100000000)]
+        required, rule = LANE_REQUIRED + (["lane:load_store_512_checked"] if is512 else []), LANE_RULE
+    else:
+        a_prod = ["--trials", scaled(tier, 10000000, 500000000)]
+        a_asan = ["--trials", scaled(tier, 100000, 4000000)]
+        required, rule = MAT_REQUIRED, MAT_RULE
+    res.merge(vfw.run_shards(work, bins["vecops-prod" + sfx], prop, tier, seed, NCPU, a_prod, tag="prod" + sfx, timeout=7200 if th else 1500))
+    res.merge(vfw.run_shards(work, bins["vecops-asan" + sfx], prop, tier, seed + 1000003, NCPU, a_asan, tag="asan" + sfx, timeout=7200 if th else 1500))
+    return vfw.finalize(prop, tier, seed, res, t0, rule, assumptions=ASSUME_COMMON, required=required,
+                        replay_info={"harness": "vecops.cpp", "how": "./check %s --replay <file>" % prop})
+
+
 def replay(prop, path, work, seed):
     """Re-run the recorded violation: rebuild and run the same harness on the recorded case only."""
     rp = json.load(open(path))
